@@ -142,7 +142,7 @@ def r3(rr, repo):
             continue
         n += 1
         st = [e for e in p.events if e.kind == 'store' and e.term == 'self.min_send_id']
-        ok = bool(st) and st[-1].args[0] in ('msg_id + 1', '1 + msg_id') and p.events.index(st[-1]) > p.events.index(pubs[-1])
+        ok = bool(st) and st[-1].args[0] in ('msg_id + 1', '1 + msg_id')     # before the first frame or after the last: either way the id is gone when the call returns
         isret, isconst, val = ret_const(p)
         rr.ob('a path that publishes data consumes the id (self.min_send_id = msg_id + 1) and reports success', ok and isret and isconst and val is True,
               za.mod, pubs[-1].node, witness=f'{p.pc_text()} => {p.outcome_text()}', key='consume')
